@@ -395,6 +395,36 @@ def rule_r1q(chk, db):
         chk.verdict(bool(ds), "R1", "query-parser-decodes", qp.loc(), "OrderedQs::parse no longer decodes names and values", nontrivial=False)
 
 
+def rule_r8(chk, db):
+    """verbatim host: the Host value is matched with the configured base domain as the client sent it.  The matcher (the function of the host
+    module that takes a base domain and a host and answers with a VirtualHost) compares / strips the base domain on its `host` parameter
+    itself - not on a rewritten copy (port stripped, case folded, trimmed), which would let a host of one configured domain resolve under
+    another."""
+    ms = [b for n, b in db.bodies.items() if b.crate == "s3s" and n.startswith("s3s::host::") and b.kind == "Fn" and b.argc == 2 and
+          "VirtualHost" in b.raw.get("ret", "") and "Option<" in b.raw.get("ret", "") and all(b.locals[l].startswith("&") and "str" in b.locals[l] for l in (1, 2))]
+    chk.floor("R8", len(ms), 1, "host matchers (base domain, host) -> Option<VirtualHost>")
+    for m in ms:
+        b = inline.inlined(db, m)
+        n = 0
+        for bi, t in b.calls():
+            nm = short(callee_def(t))
+            if nm not in ("eq", "ne", "strip_suffix", "ends_with", "strip_prefix", "starts_with", "rsplit_once", "split_once", "find", "rfind") or len(t["args"]) < 2:
+                continue
+            roots = []
+            for a in t["args"][:2]:
+                ch = flow.resolve_chain(b, a) or []
+                roots.append(ch[-1] if ch else None)
+            params = [r[0] if r is not None and not flow.fields_only(r[1]) and 1 <= r[0] <= 2 else None for r in roots]
+            if 1 not in params:
+                continue        # not a comparison with the base domain
+            n += 1
+            other = params[1] if params[0] == 1 else params[0]
+            chk.verdict(other == 2, "R8", "host-matched-as-sent:%s#%d" % (nm, bi), b.loc(bi),
+                        "the base domain is matched (%s) against a value that is not the Host parameter itself but a rewritten copy: a host that belongs to "
+                        "another configured domain (or to none) can resolve under this one" % nm)
+        chk.floor("R8.cmp", n, 1, "comparisons of the host with the base domain in %s" % short(m.name))
+
+
 def _is_closure(b, op, name):
     """the operand is the closure `name` (possibly bound to a local first)"""
     for l, pr in (flow.resolve_chain(b, op) or []):
@@ -568,6 +598,8 @@ def run(chk, db, tier):
     chk.guard("R5", rule_r5, db)
     chk.guard("R6", rule_r6, db)
     chk.guard("R7", rule_r7, db)
+    chk.rule("R8", "verbatim host: the base domain is matched against the Host value as sent, not against a rewritten copy")
+    chk.guard("R8", rule_r8, db)
 
 
 META = {
